@@ -20,6 +20,7 @@ type MMap struct {
 	activeMap   mmap.MMap // 当前活动映射区域
 	endOff      int64     // 当前映射区域的右边界
 	virtualSize int64     // 虚拟文件大小
+	shrunk      bool      // 物理文件已被截断至虚拟大小, 下一次写入前须重新扩展; 仅写入方访问
 }
 
 func NewMMap(fileName string) (*MMap, error) {
@@ -72,6 +73,14 @@ func (m *MMap) Read(b []byte, offset int64) (int, error) {
 }
 
 func (m *MMap) Write(b []byte) (int, error) {
+	// 文件被截断后映射区域超出文件末尾的部分不可写入, 收缩右边界以强制重新扩展文件并建立映射
+	// 写入与同一文件的读取互斥, 此处修改右边界是安全的
+	if m.shrunk {
+		m.shrunk = false
+		if m.endOff > m.virtualSize {
+			m.endOff = m.virtualSize
+		}
+	}
 	if err := m.remap(m.virtualSize, len(b)); err != nil {
 		return 0, err
 	}
@@ -120,11 +129,9 @@ func (m *MMap) ResetFileSize() error {
 		return err
 	}
 	// 文件已被截断至真实大小, 现有映射区域超出文件末尾的部分不可再访问
-	// 将右边界收缩至文件末尾: 其之前的部分仍然有效, 并发的读操作无需 (也不得) 重新映射
-	// 下一次写入超出该边界时重新扩展文件并建立映射
-	if m.endOff > m.virtualSize {
-		m.endOff = m.virtualSize
-	}
+	// 文件末尾之前的部分仍然有效, 并发的读操作 (旧数据文件的读取不持有 DB 锁) 无需重新映射
+	// 右边界可能正被并发读取, 此处不得修改, 仅作标记, 由下一次写入收缩右边界并重新扩展文件
+	m.shrunk = true
 	return nil
 }
 
